@@ -210,10 +210,10 @@ Proof. intros Q t p ch HW. unfold step_default. wifs; first [wok HW|wlift HW]. Q
 
 (* ---- one character, given a macro invoker that is itself safe ------------------------------------------------------------------------ *)
 Lemma astep_gen_np : forall Q invoke m,
-  (forall t0 p0 id, W t0 -> macros p0 = macros (ps m) -> NP Q (invoke t0 p0 id)) ->
-  forall ch, W (tm m) -> NP Q (astep_gen invoke m ch).
+  forall ch, (forall t0 p0 id, W t0 -> macros p0 = macros (ps m) -> ch = 122 -> NP Q (invoke t0 p0 id)) ->
+  W (tm m) -> NP Q (astep_gen invoke m ch).
 Proof.
-  intros Q invoke [t p] Hinv ch HW. cbn [ps] in Hinv. cbn [tm] in HW. unfold astep_gen. cbn [tm ps].
+  intros Q invoke [t p] ch Hinv HW. cbn [ps] in Hinv. cbn [tm] in HW. unfold astep_gen. cbn [tm ps].
   destruct (st p) eqn:ST.
   - (* SDefault *) apply step_default_np; exact HW.
   - (* SEsc *)
@@ -227,19 +227,20 @@ Proof.
     + apply np_lift. eapply limit_okW; [apply reset_terminal_WG; apply HW|reflexivity].
     + apply step_default_np; exact HW.
   - apply csi_devattr_np; exact HW.
-  - (* SEndCsi *)
+  - (* SEndCsi: the macro invoker is reached only by the character z *)
+    destruct (Z.eqb_spec ch 122) as [E122|N122];
     repeat match goal with |- NP _ (if ?c then _ else _) => destruct c end;
       try (first [ wok HW | werr HW | wlift HW
                  | apply cmd_fill_rect_np; exact HW | apply cmd_erase_rect_np; exact HW
                  | apply cmd_sel_erase_rect_np; exact HW | apply cmd_font_selection_np; exact HW ]).
     all: try (destruct (nums p) as [|id r]; [wok HW|];
-              pose proof (Hinv t (dflt p) id HW eq_refl) as G; destruct (invoke t (dflt p) id); exact G).
+              pose proof (Hinv t (dflt p) id HW eq_refl E122) as G; destruct (invoke t (dflt p) id); exact G).
     all: try (repeat match goal with |- NP _ (match ?l with _ => _ end) => destruct l end; try werr HW; wifs; first [wok HW|werr HW]).
   - (* SDcs *) wifs; wok HW.
   - (* SDcsEsc *) wifs; try wok HW. apply execute_dcs_np; exact HW.
   - (* SDcsMacro *)
-    wifs; try wok HW; try werr HW.
-    all: try (apply Hinv; [exact HW|reflexivity]).
+    destruct (Z.eqb_spec ch 122) as [E122|N122]; wifs; try wok HW; try werr HW.
+    all: try (apply Hinv; [exact HW|reflexivity|exact E122]).
   - (* SMusic *) apply parse_music_np; exact HW.
   - wifs; wok HW.
   - wifs; wok HW.
@@ -262,18 +263,89 @@ Qed.
 Lemma astep_np : forall fuel m ch, W (tm m) -> NP True (astep fuel m ch).
 Proof.
   induction fuel as [|k IH]; intros m ch HW; cbn [astep]; apply astep_gen_np; try exact HW.
-  - intros t0 p0 id H0 _. destruct (lookup id (macros p0)); [exact I|exact H0].
-  - intros t0 p0 id H0 _. destruct (lookup id (macros p0)) as [body|]; [|exact H0]. apply feed_macro_np; [exact IH|exact H0].
+  - intros t0 p0 id H0 _ _. destruct (lookup id (macros p0)); [exact I|exact H0].
+  - intros t0 p0 id H0 _ _. destruct (lookup id (macros p0)) as [body|]; [|exact H0]. apply feed_macro_np; [exact IH|exact H0].
 Qed.
 (* no macro stored: not even the nesting overflow *)
 Lemma astep_np_nomacro : forall fuel m ch, W (tm m) -> macros (ps m) = [] -> NP False (astep fuel m ch).
 Proof.
   intros fuel m ch HW HM. destruct fuel; cbn [astep]; apply astep_gen_np; try exact HW;
-    intros t0 p0 id H0 E; rewrite E, HM; exact H0.
+    intros t0 p0 id H0 E _; rewrite E, HM; exact H0.
 Qed.
 Lemma astep_np_or : forall (Q : Prop) fuel m ch, W (tm m) -> (Q \/ macros (ps m) = []) -> NP Q (astep fuel m ch).
 Proof.
   intros Q fuel m ch HW [HQ|HM].
   - eapply np_weaken; [|apply astep_np; exact HW]. intro; exact HQ.
   - eapply np_weaken; [|apply astep_np_nomacro; assumption]. intros [].
+Qed.
+
+(* the macro invoker is reached only by the character z: any other character cannot overflow the nesting, whatever is stored *)
+Lemma astep_np_not_z : forall fuel m ch, W (tm m) -> ch <> 122 -> NP False (astep fuel m ch).
+Proof.
+  intros fuel m ch HW N. destruct fuel; cbn [astep]; apply astep_gen_np; try exact HW; intros t0 p0 id H0 _ E; contradiction.
+Qed.
+
+(* ---- the macro table stays empty unless a DCS string is completed (ESC \) --------------------------------------------------------- *)
+Definition MP (o : outcome) : Prop := match o with OOk m | OErr m => macros (ps m) = [] | _ => True end.
+Ltac mp_leaf HM :=
+  cbv [MP ok err lift macros ps dflt mus start_music set_st set_nums set_saved_pos set_saved_cur set_last set_music set_pstr set_mdcs
+       set_macros set_hlinks set_bice set_fonts set_resized];
+  repeat (match goal with |- context [if ?c then _ else _] => destruct c end);
+  first [ exact HM | reflexivity | exact I ].
+Ltac mp_split :=
+  unfold lift;
+  repeat match goal with
+         | |- MP (if ?c then _ else _) => destruct c
+         | |- MP (match ?x with _ => _ end) => destruct x
+         | |- MP (let '(_, _) := ?x in _) => destruct x
+         end.
+Lemma astep_gen_mp : forall invoke m ch,
+  (forall t0 p0 id, macros p0 = [] -> MP (invoke t0 p0 id)) ->
+  macros (ps m) = [] -> ch <> 92 -> MP (astep_gen invoke m ch).
+Proof.
+  intros invoke [t p] ch Hinv HM N. cbn [ps] in HM. unfold astep_gen. cbn [tm ps].
+  destruct (Z.eqb_spec ch 92) as [E92|_]; [contradiction|].
+  destruct (st p) eqn:ST.
+  - unfold step_default. mp_split; mp_leaf HM.
+  - mp_split; mp_leaf HM.
+  - unfold csi_final, cmd_sgr, cmd_decslrm, cmd_ech, cmd_csr, cmd_decstbm, cmd_window, hpos_line. mp_split; mp_leaf HM.
+  - unfold csi_cmd. mp_split; mp_leaf HM.
+  - unfold csi_req, cmd_reset_margins, cmd_ssm. mp_split; mp_leaf HM.
+  - unfold step_default. mp_split; mp_leaf HM.
+  - unfold csi_devattr. mp_split; mp_leaf HM.
+  - unfold cmd_fill_rect, cmd_erase_rect, cmd_sel_erase_rect, cmd_font_selection, lift.
+    repeat match goal with
+           | |- MP (if ?c then _ else _) => destruct c
+           | |- MP (match nums p with _ => _ end) => destruct (nums p) as [|n1 [|n2 [|n3 [|n4 [|n5 [|n6 [|n7 r]]]]]]]
+           | |- MP (let '(_, _) := ?x in _) => destruct x
+           | |- MP (match iter_res ?a ?b ?c with _ => _ end) => destruct (iter_res a b c)
+           end; try (mp_leaf HM).
+    all: match goal with |- MP (match ?f ?a ?b ?c with _ => _ end) =>
+           assert (G : MP (f a b c)) by (apply Hinv; exact HM); destruct (f a b c); exact G end.
+  - mp_split; mp_leaf HM.
+  - mp_split; mp_leaf HM.
+  - repeat match goal with
+           | |- MP (if ?c then _ else _) => destruct c
+           | |- MP (match nums ?q with _ => _ end) => destruct (nums q) as [|n1 [|n2 r]]
+           end; try (mp_leaf HM).
+    apply Hinv. exact HM.
+  - unfold parse_music, parse_default_music. destruct m; mp_split; mp_leaf HM.
+  - mp_split; mp_leaf HM.
+  - mp_split; mp_leaf HM.
+  - mp_split; mp_leaf HM.
+  - mp_split; mp_leaf HM.
+Qed.
+Lemma astep_keeps_nomacro : forall fuel m ch, macros (ps m) = [] -> ch <> 92 -> MP (astep fuel m ch).
+Proof.
+  intros fuel m ch HM N. destruct fuel; cbn [astep]; apply astep_gen_mp; auto; intros t0 p0 id E; rewrite E; exact E.
+Qed.
+
+(* the statement in one piece: an action or an error value on a W state again; never a panic; the nesting overflow only
+   while a macro is stored *)
+Lemma astep_char_total : forall fuel m ch, W (tm m) ->
+  match astep fuel m ch with OOk m' | OErr m' => W (tm m') | OPanic _ => False | ODiverge => macros (ps m) <> [] end.
+Proof.
+  intros fuel m ch HW. destruct (macros (ps m)) as [|a l] eqn:E.
+  - pose proof (astep_np_nomacro fuel m ch HW E) as G. destruct (astep fuel m ch); try exact G. contradiction.
+  - pose proof (astep_np fuel m ch HW) as G. destruct (astep fuel m ch); try exact G. discriminate.
 Qed.
